@@ -688,9 +688,8 @@ def nonconserving_term(rng, n):
 
 
 def in_place_edit(rng, n, kind):
-    """an in-place edit of an OpenFermion-style FermionOperator + the same edit on an oracle term list"""
-    from openfermion.ops import FermionOperator
-
+    """an in-place edit of an OpenFermion-style FermionOperator + the same edit on an oracle term list (the addend has the
+    operand's own class: OpenFermion refuses subclass += base class)"""
     x = rng.randrange(4)
     if x == 0:
         c = rng.choice([2.0, -0.5, 3, 1j])
@@ -699,8 +698,8 @@ def in_place_edit(rng, n, kind):
         return "/= 4", (lambda o: o.__itruediv__(4)), (lambda tl: [(k / 4, t) for k, t in tl])
     c, t = rng.choice(COEFS), random_term(rng, n, kind)
     if x == 2:
-        return f"+= {c}·{t}", (lambda o: o.__iadd__(FermionOperator(tuple(t), c))), (lambda tl: list(tl) + [(c, t)])
-    return f"-= {c}·{t}", (lambda o: o.__isub__(FermionOperator(tuple(t), c))), (lambda tl: list(tl) + [(-c, t)])
+        return f"+= {c}·{t}", (lambda o: o.__iadd__(type(o)(tuple(t), c))), (lambda tl: list(tl) + [(c, t)])
+    return f"-= {c}·{t}", (lambda o: o.__isub__(type(o)(tuple(t), c))), (lambda tl: list(tl) + [(-c, t)])
 
 
 def operator_forms(ctx: Ctx, kind, n, inp, S, inv_s, om, om_alt, budget):
@@ -1288,7 +1287,7 @@ def k_operator_helpers(ctx: Ctx):
                 a = (dict(conv.terms) == snap[1], dict(hc.terms) == snap[2])
                 mid = dict(src.terms)
                 conv *= -3.0
-                conv -= OFF(((0, 1), (0, 0)), 0.5)
+                conv -= O.FermionOperator(((0, 1), (0, 0)), 0.5)
                 b = (dict(src.terms) == mid, dict(hc.terms) == snap[2])
                 keep = dict(conv.terms)
                 hc *= 0.5
@@ -1318,27 +1317,26 @@ def k_operator_helpers(ctx: Ctx):
             ctx.witness("conversion", f"operator_from_openfermion_op raises {exc_name(e)}", {"qubit_operator": str(qop)[:300]})
             continue
         def qalias():  # the converted Operator and the QubitOperator are independent values
-            res = O.operator_from_openfermion_op(qop)
-            before, src_before = qubit_terms(res), dict(qop.terms)
-            q2 = qop
+            q2 = QubitOperator()
+            for t, c in ref0.items():
+                q2 += QubitOperator(t, c)
+            res = O.operator_from_openfermion_op(q2)
+            before = qubit_terms(res)
             q2 *= 2.0
             q2 += QubitOperator(((0, "Z"),), 0.25)
             a = qubit_terms(res) == before
-            mid = dict(qop.terms)
+            mid = dict(q2.terms)
             res.constant = res.constant + 1.5
             for lab in list(res):
                 res[lab] = res[lab] * 3
-            qop *= 0.5  # undo the scaling so that `ref` below still describes qop up to the Z term
-            return a, {k: v * 0.5 for k, v in mid.items()} == dict(qop.terms) or dict(qop.terms).keys() == mid.keys()
+            return a, dict(q2.terms) == mid
 
         ref0 = dict(qop.terms)
         r = _out(qalias)
-        if r[0] != "ok" or not all(r[1]):
+        if r != ("ok", (True, True)):
             ctx.witness("conversion", "the Operator returned by operator_from_openfermion_op follows in-place edits of its source "
-                        "(q *= 2.0; q += 0.25 Z0) or the source follows edits of the result", {"qubit_operator": repr(ref0)[:300]}, repr(r)[:200])
-        qop = QubitOperator()
-        for t, c in ref0.items():
-            qop += QubitOperator(t, c)
+                        "(q *= 2.0; q += 0.25 Z0) or the source follows edits of the result (flags: result kept, source kept)",
+                        {"qubit_operator": repr(ref0)[:300]}, repr(r)[:200])
         for b in range(1 << nq):
             c1, c2 = fock.qubit_column(got, b), fock.qubit_column(ref, b)
             if any(abs(c1.get(k, 0) - c2.get(k, 0)) > 1e-12 for k in set(c1) | set(c2)):
